@@ -46,6 +46,10 @@ def to_text(v: V, st: SchemaType, problems: List[str]) -> str:
             continue
         if isinstance(x, Sym) and x.origin and x.origin[0] == "prop":
             prop = x.origin[1]
+            if conv.endswith("%"):
+                conv = conv[:-1]
+                if x.kind in (None, "tuple"):
+                    problems.append(f"prop `{prop}` is formatted with the % operator: a tuple value is unpacked")
             if conv != "r" and (x.kind not in REPR_NEUTRAL):
                 problems.append(f"prop `{prop}` (kind {x.kind}) is printed with str() instead of repr()")
             out.append(f"__P_{prop}__")
@@ -57,6 +61,9 @@ def to_text(v: V, st: SchemaType, problems: List[str]) -> str:
             out.append(f"__M_{_ident(x.key())}__")
             continue
         if isinstance(x, Sym) and x.origin and x.origin[0] == "dictkey":
+            if conv.endswith("%"):
+                problems.append(f"dict key `{x.key()}` is formatted with the % operator: a tuple key is unpacked instead of printed")
+                conv = conv[:-1]
             if conv != "r":
                 problems.append(f"dict key `{x.key()}` is printed with str() instead of repr()")
             out.append(f"__K_{_ident(x.key())}__")
@@ -358,4 +365,9 @@ MUTANTS = [
     {"name": "neutral: contains printed before alphabet", "expect": "SILENT",
      "edits": [(R, "        if schema.props.alphabet is not Nil:\n            r += f\".alphabet({schema.props.alphabet!r})\"\n\n        if schema.props.substr is not Nil:\n            r += f\".contains({schema.props.substr!r})\"\n",
                 "        if schema.props.substr is not Nil:\n            r += f\".contains({schema.props.substr!r})\"\n\n        if schema.props.alphabet is not Nil:\n            r += f\".alphabet({schema.props.alphabet!r})\"\n")]},
+]
+
+MUTANTS += [
+    {"name": "dict keys printed with printf-style formatting", "rule": "EMIT-REPLAY",
+     "edits": [(R, "                key_repr = f\"optional({key!r})\" if is_optional else repr(key)", "                key_repr = (\"optional(%r)\" if is_optional else \"%r\") % key")]},
 ]
